@@ -679,6 +679,9 @@ pub fn model_conn(sc: &Scenario, c: usize, obs: &Observation) -> ConnModel {
                             return m;
                         }
                     }
+                    // a oneway call gets nothing, whatever the service answers it with: the stream
+                    // is discarded and the connection keeps taking calls
+                    CallKind::Sub if oneway => continue,
                     CallKind::Sub => {
                         let (items, ended) = obs.streams.get(&(c as u32, id)).cloned().unwrap_or_default();
                         for (seq, cont) in items.iter().enumerate() {
